@@ -1,6 +1,6 @@
 //! C05: compare the crate's number tables with the rows TLC generates from Registry.tla.
 use crate::util::*;
-use coap_lite::{CoapOption, ContentFormat, Header, HeaderRaw, MessageClass, MessageType, ObserveOption, RequestType, ResponseType};
+use coap_lite::{CoapRequest, Packet, CoapOption, ContentFormat, Header, HeaderRaw, MessageClass, MessageType, ObserveOption, RequestType, ResponseType};
 use serde_json::{json, Value};
 use std::collections::BTreeSet;
 use std::convert::TryFrom;
@@ -307,6 +307,23 @@ pub fn replay_registry(args: &Args) {
         }
         if option_name(o) != v["opt"].as_str().unwrap() || u16::from(o) != nn {
             rep.bad("C05", "option number maps to the wrong name or not back to itself", json!({"row": v, "got": format!("{:?}", o), "back": u16::from(o)}));
+        }
+        // the same numbers through the message-level accessors (raw option bytes -> named value -> bytes)
+        {
+            let raw: Vec<u8> = if nn == 0 { vec![] } else if nn < 256 { vec![nn as u8] } else { nn.to_be_bytes().to_vec() };
+            let mut p = Packet::new();
+            p.add_option(CoapOption::ContentFormat, raw.clone());
+            let name = p.get_content_format().map(cf_name).unwrap_or("-");
+            let back = p.get_content_format().map(|cf| { let mut q = Packet::new(); q.set_content_format(cf); q.get_first_option(CoapOption::ContentFormat).cloned() });
+            if name != v["cf"].as_str().unwrap() || back.map(|b| b != Some(raw.clone())).unwrap_or(false) {
+                rep.bad("C05", "content-format id through get_content_format / set_content_format", json!({"row": v, "got": name}));
+            }
+            let mut rq: CoapRequest<String> = CoapRequest::new();
+            rq.message.add_option(CoapOption::Observe, raw.clone());
+            let flag = match rq.get_observe_flag() { Some(Ok(ObserveOption::Register)) => "register", Some(Ok(ObserveOption::Deregister)) => "deregister", _ => "-" };
+            if flag != v["obs"].as_str().unwrap() {
+                rep.bad("C05", "observe action through get_observe_flag", json!({"row": v, "got": flag}));
+            }
         }
         match ContentFormat::try_from(n as usize) {
             Ok(cf) => {
